@@ -59,7 +59,7 @@ CHECKS.update({
                 design='6/C06', technique='Coq proofs over file-level cache model + run model; history correspondence', note=CACHE_NOTE),
     'C08': dict(text='Proved: run_tasks is the map update "exactly the needed, uncached, succeeding, caching-type tasks get their reference value, everything else unchanged" (C08_run_store_spec, every graph/oracle/failure pattern/bust flag); uncache removes exactly the named entries; queries are pure; cache=None types and storage=None persist nothing; bust_cache replaces what it ran. Provider agreement (LocalStorage, fsspec local, fsspec memory, None) is established by running the same histories against the one model.',
                 design='6/C08', technique='Coq refinement of Lab operations to a map + history correspondence across storage providers', note=CACHE_NOTE),
-    'C12': dict(text='Proved: for every fault point (storage effects completed), write-call counts, flush behaviour, first save/overwrite, with the failure handling extracted from BaseCache.save, afterwards the task is not reported cached and no other key changed (C12_failed_save_safe); refuted without the handling (C12_no_cleanup_refuted). Exceptions are injected at every storage-effect boundary of real saves (3 result shapes, 2 cache formats) inside run_or_load_task.',
+    'C12': dict(text='Proved: for every fault point (storage effects completed), write-call counts, flush behaviour, first save/overwrite, with the failure handling extracted from BaseCache.save, afterwards the task is not reported cached and no other key changed (C12_failed_save_safe); refuted without the handling (C12_no_cleanup_refuted). Exceptions (and KeyboardInterrupts) are injected at every storage-effect boundary of real saves (3 result shapes, 2 cache formats, local / fsspec-backed / commit-at-close storages) inside run_or_load_task, and at the executed lines of cache.py and storage.py below BaseCache.save (sampled in quick, all in thorough); the line-level runs are judged by the monitors (the model\'s steps are the storage effects).',
                 design='6/C12', technique='Coq proof over save-effect sequences + exhaustive single-fault injection on the real save path', note=CACHE_NOTE),
     'C13': dict(text='The full statement is REFUTED in the model (C13_crash_safe_refuted, C13_unsafe_points) and on the implementation (known finding D4\': six kill-point classes listed in known_findings.json); proved partial: a kill after the last effect is safe and loads the new value, and a kill never affects another key (C13_partial_*). The check kills a forked writer (os._exit) at every storage-effect boundary with buffered data lost/flushed and compares what is observable afterwards with the model; any unsafe kill point outside the listed classes is reported.',
                 design='6/C13', technique='Coq refutation + partial theorems; kill injection at every storage-effect boundary', note=CACHE_NOTE),
